@@ -700,7 +700,7 @@ func checkKE(t failer, c keCase) {
 	check(d, fmt.Sprintf("segmented %v", c.Chunks))
 }
 
-var recKE = ev.New("c14/ntske-records", "rapid: messages (next protocol, AEAD 15, optional server, optional port, 1..16 cookies of 1..400 bytes, optional unknown non-critical records, end) packed with ExchangeMsg.Pack and read by ReadData through bufio over a reader that returns rapid-chosen read sizes (1 byte, few bytes, splits inside headers and cookie bodies, everything at once): decoded Data equals the encoded values for every segmentation. Non-trivial: a read boundary falls strictly inside a cookie body; distinct by (message, segmentation)")
+var recKE = ev.New("c14/ntske-records", "rapid: messages (next protocol, AEAD 15, optional server, optional port, 1..16 cookies of 1..400 bytes (one message in 200 with a cookie of 4095..65535 bytes), optional unknown non-critical records, end) packed with ExchangeMsg.Pack and read by ReadData through bufio over a reader that returns rapid-chosen read sizes (1 byte, few bytes, splits inside headers and cookie bodies, everything at once): decoded Data equals the encoded values for every segmentation. Non-trivial: a read boundary falls strictly inside a cookie body; distinct by (message, segmentation)")
 
 func splitsCookie(c keCase, stream []byte) bool {
 	// positions of cookie bodies
@@ -740,6 +740,10 @@ func genKE(t *rapid.T) keCase {
 	nc := rapid.OneOf(rapid.IntRange(1, 16), rapid.Just(8)).Draw(t, "ncookies")
 	for i := 0; i < nc; i++ {
 		l := rapid.OneOf(rapid.IntRange(1, 400), rapid.Just(124)).Draw(t, "clen")
+		// now and then a cookie around and beyond the usual buffer sizes (a record body may have up to 65535 octets)
+		if i == 0 && rapid.IntRange(0, 199).Draw(t, "bigcookie") == 0 {
+			l = rapid.SampledFrom([]int{4095, 4096, 4097, 5000, 8192, 8193, 65535}).Draw(t, "biglen")
+		}
 		b := make([]byte, l)
 		fill(b, rapid.Uint64().Draw(t, "cfill"))
 		c.Cookies = append(c.Cookies, hx(b))
